@@ -21,8 +21,13 @@ func serveMain(args []string) {
 	fs := flag.NewFlagSet("serve", flag.ExitOnError)
 	port := fs.Int("port", 7379, "tcp port")
 	persist := fs.String("persist", "", "persist base path")
+	memlimit := fs.Int("memlimit", 0, "address-space limit in MB (hostile-input runs: an absurd allocation must kill this child, not the machine)")
 	treehook := fs.Bool("treehook", false, "install a dispatch hook (public SetHook API): ECHO <json reply tree> replies that tree")
 	fs.Parse(args)
+	if *memlimit > 0 {
+		lim := uint64(*memlimit) << 20
+		syscall.Setrlimit(syscall.RLIMIT_AS, &syscall.Rlimit{Cur: lim, Max: lim})
+	}
 	l := lane.NewNullLane(nil)
 	emu, err := redisemu.NewEmulator(l, *port, "127.0.0.1", *persist, nil)
 	if err != nil {
